@@ -1,4 +1,5 @@
 """Pointer-kind rules (C15): REFCNT-SIBLINGS."""
+import re
 from . import util as U
 
 WEIGHT = {'into_raw': +1, 'from_raw': -1, 'increment_strong_count': +1, 'decrement_strong_count': -1}
@@ -113,6 +114,33 @@ def rule_refcnt_siblings(fx, col):
             calls = [U.callee_name(t) for _, t in b.calls(include_cleanup=False)]
             forbidden = [c for c in calls if c in ('upgrade', 'downgrade', 'clone', 'increment_strong_count', 'decrement_strong_count') and nm in ('into_ptr', 'as_ptr', 'from_ptr')]
             col.add('REFCNT-SIBLINGS', '<%s>::%s|pure conversion' % (kind, nm), not forbidden, 'calls: %s' % calls)
+        # borrowing yields what conversion would: the pointer as_ptr returns is produced by the same kind of std conversion
+        # as into_ptr's (into_raw / as_ptr of the std handle, or the inner kind's own method, or null) — not computed by
+        # arithmetic on the handle's bits (wrong for over-aligned pointees) and not a reborrow of the pointee (`&**me`: right
+        # address, but provenance over the value only, while the crate later reaches the counters through it)
+        OKC = ('into_raw', 'as_ptr', 'into_ptr', 'null_mut', 'null', 'dangling', 'without_provenance_mut')
+        for nm in ('as_ptr', 'into_ptr'):
+            b = ms.get(nm)
+            if b is None:
+                continue
+            thr = lambda t: [0] if U.callee_name(t) in ('cast', 'cast_mut', 'cast_const', 'unwrap_or_else', 'unwrap_or', 'map_or_else') else None
+            src = b.origins(0, through_calls=thr, binops=True)
+            def mapped_conversion(t):
+                # `opt.map(T::into_ptr)` / `.map(|x| T::as_ptr(x))`: the inner kind's own conversion applied under the Option
+                if U.callee_name(t) != 'map' or 'option::Option' not in t['callee'].get('path', ''):
+                    return False
+                for a in t['args'][1:]:
+                    if a['k'] == 'const' and re.search(r'RefCnt>::(into_ptr|as_ptr)$', a['c'].get('fn_pretty') or a['c'].get('text') or ''):
+                        return True
+                    d = U.def_rvalue(b, a)
+                    if d and d[0] == 'rv' and d[3]['k'] == 'aggregate' and d[3].get('closure'):
+                        cb = fx.lib.by_key.get(d[3]['closure'])
+                        if cb is not None and any(U.callee_name(tt) in ('into_ptr', 'as_ptr') and (tt['callee'].get('trait') or '').endswith('ref_cnt::RefCnt') for _, tt in cb.calls(include_cleanup=False)):
+                            return True
+                return False
+            bad = [o for o in src if not (o[0] == 'call' and (U.callee_name(b.term(o[1])) in OKC or mapped_conversion(b.term(o[1])))) and o[0] != 'const']
+            col.add('REFCNT-SIBLINGS', '<%s>::%s|pointer produced by the std conversion' % (kind, nm), bool(src) and not bad,
+                    'sources of the returned pointer: %s' % sorted((o[0], U.callee_name(b.term(o[1])) if o[0] == 'call' else o[1]) for o in src))
         # null symmetry
         prod = {}
         for nm in ('into_ptr', 'as_ptr'):
